@@ -81,7 +81,7 @@ def gen_query(rng, G):
             oc = rng.randrange(2)
             if br:
                 toks.append(Tok("open", pair=oc))
-            kind = rng.choice(["int", "str", "like", "rx", "bool", "between"])
+            kind = rng.choice(["int", "str", "like", "rx", "bool", "between", "argless"])
             if kind == "int":
                 toks += [A(fields[rng.choice(["FSize", "FHardlinks"])]), A(ops[rng.choice(["OpEq", "OpNe", "OpGt", "OpGte", "OpLt", "OpLte"])]), L(str(rng.choice([0, 5, 12, 100])))]
             elif kind == "str":
@@ -90,6 +90,9 @@ def gen_query(rng, G):
                 toks += [A(fields["FName"]), Tok("alias", "like", ["like"]) if rng.random() < 0.5 else Tok("alias", "notlike", ["notlike", "not like"]), L("'%.t%'")]
             elif kind == "rx":
                 toks += [A(fields["FName"]), A(ops[rng.choice(["OpRx", "OpNotRx"])]), L("'^[a-c]'")]
+            elif kind == "argless":
+                oc2 = rng.randrange(2)
+                toks += [A(funcs["FnYear"]), Tok("open", pair=oc2), A(funcs["FnCurrentDate"]), Tok("optparens"), Tok("close", pair=oc2), A(ops[rng.choice(["OpGt", "OpLt"])]), L("2001")]
             elif kind == "bool":
                 toks += [A(fields[rng.choice(["FIsDir", "FIsPipe"])]), A(ops["OpEq"]), L(rng.choice(["true", "false"]))]
             else:
@@ -153,8 +156,11 @@ def render(toks, rng=None, mode="canon", pick=None):
             if present:
                 out.append(t.text)
         elif t.kind == "optparens":
-            if mode in ("optional", "mix") and rng and rng.random() < 0.5:
-                out.append("()")
+            # the empty argument list of an argument-less function: absent, `()` or `{}`
+            if mode in ("optional", "mix") and rng and rng.random() < 0.67:
+                out.append(rng.choice(["()", "{}"]))
+            elif mode == "brackets":
+                out.append("{}")
     return [x for x in out if x != ""]
 
 
@@ -163,7 +169,7 @@ def join(pieces):
     for p in pieces:
         if p == ",":
             s += ","
-        elif p in (")", "}", "()"):
+        elif p in (")", "}", "()", "{}"):
             s += p
         elif s.endswith(("(", "{")):
             s += p
